@@ -224,14 +224,14 @@ fn run_direct(case: &Case, ctx: &mut Ctx) -> Result<(), Fail> {
     Ok(())
 }
 
-fn case_direct(bytes: &[u8], _s: &[u8], ctx: &mut Ctx) -> Result<(), Fail> {
+pub fn case_direct(bytes: &[u8], _s: &[u8], ctx: &mut Ctx) -> Result<(), Fail> {
     let mut src = Source::new(bytes);
     let case = decode(&mut src, 3);
     ctx.case(&case);
     run_direct(&case, ctx)
 }
 
-fn case_prom(bytes: &[u8], _s: &[u8], ctx: &mut Ctx) -> Result<(), Fail> {
+pub fn case_prom(bytes: &[u8], _s: &[u8], ctx: &mut Ctx) -> Result<(), Fail> {
     let mut src = Source::new(bytes);
     // one kind per key (the exporter cannot express one key under two kinds): key i has kind i % 3
     let mut case = decode(&mut src, 1);
@@ -344,7 +344,7 @@ fn exhaustive(pr: &PropRun) -> LaneReport {
     rep
 }
 
-fn case_exhaustive_replay(bytes: &[u8], _s: &[u8], ctx: &mut Ctx) -> Result<(), Fail> {
+pub fn case_exhaustive_replay(bytes: &[u8], _s: &[u8], ctx: &mut Ctx) -> Result<(), Fail> {
     let t = 1_000_000_000u64;
     let alphabet = [Step::Update(0, 0, false), Step::Advance(t - 1), Step::Advance(t), Step::Advance(t + 1), Step::Observe];
     let len = (*bytes.first().unwrap_or(&1) as usize).clamp(1, 6);
